@@ -35,7 +35,7 @@ Init == /\ id0 \in 1..Len(InitSeq)
         /\ pf = AllProfiles(st)
 Next == /\ Len(hist) < MaxLen
         /\ \E o \in RawCatalogue(st) :
-             /\ (IF OpsLevel = "all" THEN TRUE ELSE o.op \in CoreOps)
+             /\ (IF OpsLevel \in {"all", "std"} THEN TRUE ELSE o.op \in CoreOps)
              /\ (IF ShapeOK(o, st) /\ PreOK(o, st) THEN TRUE ELSE FALSE)
              /\ LET post == Do(o, st) IN
                   /\ Magnitude(post) <= Limit
